@@ -359,6 +359,11 @@ func oracleC17(f *sessionFam, w *World, res *Result) []Violation {
 				l.add("preflight-answered-by-server", "", "preflight was passed to the application's handler although preflightContinue is off")
 			}
 		}
+		if !o.Cors.Continue {
+			if ce := w.evs("pf", "connection_error"); len(ce) > 0 {
+				l.add("preflight-answered-by-server", "also-passed-on", fmt.Sprintf("a preflight the server answered itself was also handed to the engine: %d connection_error event(s) (%q)", len(ce), ce[0].S))
+			}
+		}
 		if len(w.evs("pf", "connection")) > 0 {
 			l.add("preflight-creates-no-session", "", "a preflight request created a session")
 		}
